@@ -20,7 +20,7 @@ SHRINK = None
 TRUSTED = ["lean/PystogVerif/Model/Config.lean is a hand-written model of parse_cli_args / __kwargs2attr / create_domain / cli sequencing, "
            "tied to /repo by the correspondence (attributes after construction, r grid bit for bit, list of files written by pystog_cli)"]
 RSF = ["g(r)", "G(r)", "GK(r)"]
-STEMS = ["out", "merged", "abc", "run7"]
+STEMS = ["out", "merged", "abc", "run7", "run_1.5K", "sample.v1.2"]
 DEFAULTS = {"RealSpaceFunction": "g(r)", "Rmin": 0.0, "Rdelta": 0.01, "NumberDensity": 1.0, "OmittedXrangeCorrection": False,
             "LorchFlag": False, "<b_coh>^2": 1.0, "<b_tot^2>": 1.0, "Merging": {"Y": {"Offset": 0.0, "Scale": 1.0}},
             "Outputs": {"StemName": "out"}, "FourierFilter": {}}
@@ -40,7 +40,9 @@ def gen(rng, i, tier):
                 v = float(rng.choice([0.05, 0.1, 0.25]))
             elif isinstance(v, bool):
                 v = bool(rng.random() < 0.5)
-            elif isinstance(v, float) and k != "Rmin":
+            elif k == "Rmin":
+                v = float(rng.choice([0.0, 0.1, 0.25, 0.05]))
+            elif isinstance(v, float):
                 v = float(rng.uniform(0.05, 3))
             elif k == "Merging":
                 v = {"Y": {"Offset": float(rng.uniform(-0.2, 0.2)), "Scale": float(rng.uniform(0.8, 1.2))}}
